@@ -571,6 +571,8 @@ def v_getattr(interp, v, name):
 
     if name in ("values", "to_numpy"):
         r = V(v.t, v.axes, None, v.nan, v.inf)
+        if [a for a in v.axes if a is not ONE]:
+            r.view_of = v  # shares memory with the Series (read-only under copy-on-write): in-place operations leave the subset
         if name == "values":
             return r
 
@@ -582,7 +584,9 @@ def v_getattr(interp, v, name):
 
         return to_numpy
     if name == "T":
-        return V(v.t, tuple(reversed(v.axes)), None, v.nan, v.inf)
+        r = V(v.t, tuple(reversed(v.axes)), None, v.nan, v.inf)
+        r.view_of = v
+        return r
     if name == "shape":
         return tuple(_axis_len(a) for a in v.axes)
     if name == "copy":
